@@ -32,6 +32,10 @@ fn main() {
             println!("{}", selftest::corpus_json());
             0
         }
+        "corpus-thorough" => {
+            println!("{}", selftest::corpus_json_thorough());
+            0
+        }
         "selftest" => selftest::run(true),
         "profiles" => {
             println!("{}", spaces::plan(&args[2], args.get(3).map(|t| t == "thorough").unwrap_or(false)).profiles.join(" "));
